@@ -1108,7 +1108,7 @@ impl Scenario for C15 {
         }
     }
     fn rule() -> &'static str {
-        "one case = a generated typed document (control, apt Sources/Packages/Release stanza, buildinfo, copyright, DEP-3 header; fields present/absent, comments, other fields around) plus a seeded schedule of 1-8 steps: obtain a fresh view of a paragraph (several views of one paragraph coexist), call a setter / clearing setter from the accessor table (168 getter/setter rows) through one view, read the getter through every live view of that paragraph, restart (print, drop views, re-read through a chunked reader); oracle: getter == value through every view, the C04 list model says exactly one field with the documented name holds the reference encoding (replaced in place or appended; removed when cleared), C04's locality diff, strict re-read; at the start every getter is compared with the reference reading of the raw field; non-trivial = at least two setter calls on one paragraph or a setter seen through a second view or across a restart; distinct = FNV hash of the trace"
+        Box::leak(format!("one case = a generated typed document (control, apt Sources/Packages/Release stanza, buildinfo, copyright, DEP-3 header; fields present/absent, comments, other fields around) plus a seeded schedule of 1-8 steps: obtain a fresh view of a paragraph (several views of one paragraph coexist), call a setter / clearing setter from the accessor table ({} getter/setter rows; plus Source::vcs(), Header::fix, wrap_and_sort-then-set, Control/Copyright lookups, Changes and DEP-3 getter-only checks) through one view, read the getter through every live view of that paragraph, restart (print, drop views, re-read through a chunked reader); oracle: getter == value through every view, the C04 list model says exactly one field with the documented name holds the reference encoding (replaced in place or appended; removed when cleared), C04's locality diff, strict re-read; at the start every getter is compared with the reference reading of the raw field; non-trivial = at least two setter calls on one paragraph or a setter seen through a second view or across a restart; distinct = FNV hash of the trace", rows().len()).into_boxed_str())
     }
     fn state_measure() -> &'static str {
         "distinct (accessor row, prior state of the field [absent/present/duplicated, comments], number of live views of the paragraph) tuples"
